@@ -5,8 +5,8 @@ import (
 	"go/ast"
 	"go/constant"
 	"go/token"
-	"sort"
 	"go/types"
+	"sort"
 	"strings"
 
 	"golang.org/x/tools/go/ssa"
